@@ -68,6 +68,22 @@ fn pointer_family() -> GenParams {
     }
 }
 
+fn reborn_family() -> GenParams {
+    GenParams {
+        family: "reborn",
+        specs: crate::world::CREATE2_SPECS,
+        txs: (5, 14),
+        n_eoa: 6,
+        n_con: 1,
+        mix: Mix { slots: 8, ..Mix::default() },
+        kind_w: [16, 0, 0, 0],
+        hot_sender_pct: 10,
+        reborn_contract: true,
+        low_gas_pct: 0,
+        ..GenParams::default()
+    }
+}
+
 pub fn c01() -> SchedCampaign {
     SchedCampaign {
         prop: "C01",
@@ -75,6 +91,7 @@ pub fn c01() -> SchedCampaign {
             Family { weight: 5, params: conflict_family("hot-slots") },
             Family { weight: 4, params: mixed_family() },
             Family { weight: 3, params: pointer_family() },
+            Family { weight: 2, params: reborn_family() },
             Family { weight: 1, params: transfer_family() },
         ],
         profiles: ProfileWeights::default(),
@@ -221,6 +238,7 @@ pub fn c08() -> SchedCampaign {
                     ..GenParams::default()
                 },
             },
+            Family { weight: 4, params: reborn_family() },
         ],
         profiles: ProfileWeights {
             focus_classes: &[Class::Mv, Class::ExecPublish, Class::Cache, Class::Commit, Class::ValidateScan],
